@@ -3,6 +3,7 @@
     Inv_*.v files where they are proved).  See DESIGN.md section 5 for how each renders the property. *)
 From CB Require Import ProofLib Spec MonitorSound Results.
 From CB Require Import Inv_relay_pull Inv_take_pull Inv_from_iter_pull Inv_concat_pull Inv_flatten_pull.
+From CB Require Import Flow Flow_relay Flow_drop Flow_take Flow_ends.
 
 (** pull regime: the monitor's VOverPull / VOverData / VUnanswered checks never fire *)
 Theorem C14_map_safe_pull (f : val -> val) p :
@@ -160,3 +161,48 @@ Theorem C14_flatten_pull_quiescent p :
 Proof. exact (@flatten_pull_quiescent p). Qed.
 Print Assumptions C14_flatten_pull_quiescent.
 
+
+(** ** demand conservation without the pull regime (Flow_*.v): in EVERY conformant environment - upstreams
+    that also emit unasked, sinks that pull as they like - the trace counts of a stage satisfy
+    Pulls sent up + data delivered = Pulls received + data received  (take: <=, and = at rest while live),
+    the sink is greeted only after the upstream greeted, and at rest a live sink means a live upstream
+    (record [stage_flow] of Flow.v) *)
+Theorem C14_map_flow (f : val -> val) p :
+  nsinks p = 1 -> resub p = false -> no_nest p = false -> c14 p = false -> stage_flow (map_op f) p None.
+Proof. exact (@map_stage_flow f p). Qed.
+Print Assumptions C14_map_flow.
+
+Theorem C14_scan_flow (r : val -> val -> val) (seed : val) p :
+  nsinks p = 1 -> resub p = false -> no_nest p = false -> c14 p = false -> stage_flow (scan_op r seed) p None.
+Proof. exact (@scan_stage_flow r seed p). Qed.
+Print Assumptions C14_scan_flow.
+
+Theorem C14_filter_flow (cond : val -> bool) p :
+  nsinks p = 1 -> resub p = false -> no_nest p = false -> c14 p = false -> stage_flow (filter_op cond) p None.
+Proof. exact (@filter_stage_flow cond p). Qed.
+Print Assumptions C14_filter_flow.
+
+Theorem C14_skip_flow (n : nat) p :
+  nsinks p = 1 -> resub p = false -> no_nest p = false -> c14 p = false -> stage_flow (skip_op n) p None.
+Proof. exact (@skip_stage_flow n p). Qed.
+Print Assumptions C14_skip_flow.
+
+Theorem C14_take_flow (n : nat) p :
+  nsinks p = 1 -> resub p = false -> no_nest p = false -> c14 p = false -> 1 <= n ->
+  stage_flow (take_op n) p (Some n).
+Proof. exact (@take_stage_flow n p). Qed.
+Print Assumptions C14_take_flow.
+
+(** for_each sends exactly one Pull per greeting or datum received *)
+Theorem C14_for_each_flow p :
+  nsinks p = 1 -> resub p = false -> no_nest p = false -> c14 p = false -> sink_flow for_each_op p.
+Proof. exact (@for_each_sink_flow p). Qed.
+Print Assumptions C14_for_each_flow.
+
+(** from_iter, when its sink sends at most one Pull per message received: at rest with the sink live,
+    Pulls received = data delivered (nothing about [pullable] or the C14 monitor checks is assumed) *)
+Theorem C14_from_iter_flow (it : nat -> option val) p :
+  nsinks p = 1 -> resub p = false -> no_nest p = true -> c14 p = false -> one_pull p = true ->
+  source_flow (from_iter_op it) p.
+Proof. exact (@from_iter_source_flow it p). Qed.
+Print Assumptions C14_from_iter_flow.
